@@ -64,6 +64,12 @@ func (cc *callCache) Delete(index int) {
 	}
 }
 
+func (cc *callCache) Len() int {
+	cc.Lock()
+	defer cc.Unlock()
+	return len(cc.c)
+}
+
 func (cc *callCache) Take() (calls []call) {
 	cc.Lock()
 	defer cc.Unlock()
@@ -207,14 +213,30 @@ func (c *Caller) send(id string, responder chan []call) bool {
 }
 
 func (c *Caller) response(id string) {
-	if responder, ok := c.responders.Pop(id); ok {
-		responder := responder.(chan []call)
-		if !c.send(id, responder) {
-			if !c.responders.SetIfAbsent(id, responder) {
-				responder <- nil
-			}
+	for {
+		responder, ok := c.responders.Pop(id)
+		if !ok {
+			return
+		}
+		if c.send(id, responder.(chan []call)) {
+			return
+		}
+		if !c.responders.SetIfAbsent(id, responder) {
+			responder.(chan []call) <- nil
+			return
+		}
+		// a call queued since the queue was found empty saw no responder: look again
+		if !c.queued(id) {
+			return
 		}
 	}
+}
+
+func (c *Caller) queued(id string) bool {
+	if calls, ok := c.calls.Get(id); ok {
+		return calls.(*callCache).Len() > 0
+	}
+	return false
 }
 
 func (c *Caller) stop(ctx context.Context) string {
@@ -268,6 +290,10 @@ func (c *Caller) begin(ctx context.Context) []call {
 			}
 			return newValue
 		})
+		// a call queued since the queue was found empty saw no responder: look again
+		if c.queued(id) {
+			c.response(id)
+		}
 		if c.IdleTimeout > 0 {
 			ctx, cancel := context.WithTimeout(ctx, c.IdleTimeout)
 			defer cancel()
